@@ -39,6 +39,9 @@ type Engine struct {
 	exprMemo map[token.Pos]string
 	// package-level error variables initialised once with errors.New and never reassigned
 	constErr map[string]int64
+	// constGlob: package variables of basic type whose only store in the loaded program is a
+	// constant in the package initialiser and whose address is never taken (effectively constants).
+	constGlob map[string]*ssa.Const
 	specReads map[string][]string
 }
 
@@ -46,7 +49,7 @@ func NewEngine(repo string) *Engine {
 	return &Engine{repo: repo, classes: map[string]*HeapClass{}, bases: map[string]*Heap{}, leafCls: map[string][]*HeapClass{},
 		typeIDs: map[string]int64{}, typeByID: map[int64]types.Type{}, funcs: map[string]*ssa.Function{},
 		inlineLimit: 200, inlineExternal: map[string]bool{}, fileOf: map[string]*ast.File{}, exprMemo: map[token.Pos]string{},
-		pkgByPath: map[string]*packages.Package{}, constErr: map[string]int64{}, specReads: map[string][]string{}}
+		pkgByPath: map[string]*packages.Package{}, constErr: map[string]int64{}, constGlob: map[string]*ssa.Const{}, specReads: map[string][]string{}}
 }
 
 // contractFiles finds all contract files under repo/pkg.
@@ -133,12 +136,31 @@ func (eng *Engine) findConstErrors() {
 	type info struct {
 		stores  int
 		initNew bool
+		initC   *ssa.Const
 	}
+	escaped := map[string]bool{}
 	inf := map[string]*info{}
 	var names []string
 	for _, fn := range eng.allFunctions() {
 		for _, b := range fn.Blocks {
 			for _, in := range b.Instrs {
+				for _, op := range in.Operands(nil) {
+					if g, ok := (*op).(*ssa.Global); ok {
+						switch x := in.(type) {
+						case *ssa.Store:
+							if x.Addr == g && x.Val != ssa.Value(g) {
+								continue
+							}
+						case *ssa.UnOp:
+							if x.Op == token.MUL {
+								continue
+							}
+						case *ssa.DebugRef:
+							continue
+						}
+						escaped[globName(g)] = true
+					}
+				}
 				st, ok := in.(*ssa.Store)
 				if !ok {
 					continue
@@ -161,6 +183,11 @@ func (eng *Engine) findConstErrors() {
 							i.initNew = true
 						}
 					}
+					if c, ok := st.Val.(*ssa.Const); ok {
+						if bt, ok := c.Type().Underlying().(*types.Basic); ok && bt.Info()&(types.IsInteger|types.IsBoolean) != 0 {
+							i.initC = c
+						}
+					}
 				}
 			}
 		}
@@ -169,6 +196,9 @@ func (eng *Engine) findConstErrors() {
 	for _, n := range names {
 		if i := inf[n]; i.stores == 1 && i.initNew {
 			eng.constErr[n] = -int64(1000000 + len(eng.constErr))
+		}
+		if i := inf[n]; i.stores == 1 && i.initC != nil && !escaped[n] {
+			eng.constGlob[n] = i.initC
 		}
 	}
 }
@@ -370,4 +400,31 @@ func (eng *Engine) exprAt(pos token.Pos) string {
 	}
 	eng.exprMemo[pos] = s
 	return s
+}
+
+// sigParamNames: parameter names of a function known only through export data.
+func (eng *Engine) sigParamNames(key string) []string {
+	pkgPath := pkgOfKey(key)
+	p := eng.typesPkg(pkgPath)
+	if p == nil {
+		return nil
+	}
+	name := strings.TrimPrefix(key, pkgPath+".")
+	if strings.HasPrefix(name, "(") {
+		return nil
+	}
+	f, ok := p.Scope().Lookup(name).(*types.Func)
+	if !ok {
+		return nil
+	}
+	sig := f.Type().(*types.Signature)
+	var out []string
+	for i := 0; i < sig.Params().Len(); i++ {
+		n := sig.Params().At(i).Name()
+		if n == "" || n == "_" {
+			n = fmt.Sprintf("arg%d", i)
+		}
+		out = append(out, n)
+	}
+	return out
 }
